@@ -101,9 +101,14 @@ def to_native(doc, ver, clsname, mode, depth=0):
                 elif d.get("constraint") == "exact" and d.get("precision") == "second":
                     us = 123456
                 base = dt.datetime(y, mo, dd, secs // 3600, secs % 3600 // 60, secs % 60, us)
-                if mode == "stixdt-aware":
+                if mode in ("stixdt-aware", "stixdt-other-constraint"):
                     base = base.replace(tzinfo=dt.timezone.utc)
-                out[k] = STIXdatetime(base, precision=d.get("precision", "any"), precision_constraint=d.get("constraint", "exact"))
+                cons = d.get("constraint", "exact")
+                if mode == "stixdt-other-constraint":
+                    # a value taken from a property of the same precision but the other constraint (e.g. a 2.1 created/modified,
+                    # millisecond/min, reused for a 2.0 created/modified, millisecond/exact): a normalised, UTC STIXdatetime of another slot
+                    cons = "min" if cons == "exact" else "exact"
+                out[k] = STIXdatetime(base, precision=d.get("precision", "any"), precision_constraint=cons)
                 continue
             val = dt.datetime(y, mo, dd, secs // 3600, secs % 3600 // 60, secs % 60, us)
             if mode == "aware":
@@ -472,7 +477,7 @@ def case_strategy(draw):
         case["toplevel_ext"] = True
         doc.pop("granular_markings", None)
     if case["source"] == "constructed":
-        case["native"] = draw(st.sampled_from(["naive", "aware", "text", "stixdt-naive", "stixdt-aware"]))
+        case["native"] = draw(st.sampled_from(["naive", "aware", "text", "stixdt-naive", "stixdt-aware", "stixdt-other-constraint"]))
         m = M.get(ver)
         cname = m.class_for_type(doc["type"]) if doc["type"] != "bundle" else "Bundle"
         droppable = [k for k in ("created", "modified", "id", "valid_from", "spec_version") if k in doc and k in m.props(cname)]
